@@ -40,8 +40,12 @@ class Lock:
 def build_coq():
     """full .vo build of /verif/coq (no-op when current).  Returns (ok, log)."""
     with Lock("coq"):
-        if not os.path.exists(os.path.join(COQ, "Makefile")) or \
-           os.path.getmtime(os.path.join(COQ, "Makefile")) < os.path.getmtime(os.path.join(COQ, "_CoqProject")):
+        files = sorted(os.path.relpath(p, COQ) for d in ("Model", "Proofs", "Properties", "Harness")
+                       for p in glob.glob(os.path.join(COQ, d, "*.v")))
+        want = "-Q . Csvq\n" + "\n".join(files) + "\n"
+        cp = os.path.join(COQ, "_CoqProject")
+        if not os.path.exists(cp) or open(cp).read() != want or not os.path.exists(os.path.join(COQ, "Makefile")):
+            open(cp, "w").write(want)
             rc, out = sh("coq_makefile -f _CoqProject -o Makefile", cwd=COQ, timeout=120)
             if rc != 0:
                 return False, out
@@ -248,7 +252,7 @@ def main(argv):
             case = meta["cases"].get(str(cid), {})
             kname, kdesc, failing = cfg["kinds"].get(kind, ("kind%d" % kind, "unclassified", True))
             expected = ""
-            if len([v for v in violations if not v.get("nofail")]) < 12 and cfg.get("expected"):
+            if len([v for v in violations if v.get("replay", {}).get("model_expected")]) < 3 and cfg.get("expected"):
                 sn = cfg["expected"](kind, cid)
                 if sn:
                     expected = eval_snippet(pid, r["shard"], sn)
